@@ -26,7 +26,7 @@ CHECKS = [
              "known finding C12-H excluded by its witness class",
      "not_covered": ["that the optimiser honours its bounds", "base load within the observed usage range beyond the quantile box", "behaviour of the fit on data"],
      },
-    {"id": "C16", "level": "proof", "modules": ["contracts.C16_metrics"], "bounded": ["bounded.C16_metrics", "bounded.C16_fitted"],
+    {"id": "C16", "level": "proof", "modules": ["contracts.C16_metrics"], "bounded": ["bounded.C16_metrics", "bounded.C16_fitted", "bounded.C16_caltrack"],
      "technique": "deductive verification: sidecar contracts on the real source, VCs by symbolic execution (pyvc) over abstract aggregates, z3",
      "text": "Every computed field of BaselineMetrics / ReportingMetrics equals the textbook formula over abstract aggregates of the "
              "finite rows (for all n, parameter counts and aggregate values), _safe_divide and both poor-fit gates are verified in iff form.",
@@ -187,10 +187,10 @@ CHECKS = [
              "through the attribute it escapes to, the only process-global source of nondeterminism is the approved seed draw, every random_state "
              "derives from the seed, the BLAS/OpenMP pins precede the numeric imports. Bounded (labelled so): real daily / billing / hourly fits in "
              "worker processes compared bit for bit across histories (fresh, after other fits with other settings and supplemental columns, tight "
-             "batches on one data object, repeated, reordered, 4 threads in the environment, concurrent workers).",
+             "batches on one data object, repeated, reordered, 4 threads in the environment, up to 16 concurrent workers).",
      "note": "history independence is a whole-history property; the deductive part decides the seed contract and the ownership invariant, the frame "
              "conditions are conditions of the argument and the bounded part decides the rest; nlopt / sklearn / numba determinism is assumed",
-     "not_covered": ["CalTRACK hourly fits in the bounded part", "more than 4 concurrent workers", "bit-identity across machines / BLAS builds (not claimed by the property)"]},
+     "not_covered": ["CalTRACK hourly fits in the bounded part", "bit-identity across machines / BLAS builds (not claimed by the property)"]},
     {"id": "C08", "level": "proof", "modules": ["contracts.C08_conserve", "contracts.C08_asfreq"], "bounded": ["flow.C08_tables", "bounded.C08_conserve"],
      "technique": "deductive verification of as_freq and the cleaning steps on a row-wise model (pyvc, z3) + call-site table obligations + bounded exact-arithmetic conservation through the real data classes",
      "text": "Proof: for one arbitrary row of an arbitrary frame, downsample_and_clean_daily_data keeps every day, blanks a day covered for half or "
